@@ -105,7 +105,7 @@ def decoy_imports(text: str, added: list[str]) -> str:
     return text.rstrip("\n") + "\n\n\ndef decoy_scope():\n" + body + "\n    return None\n"
 
 
-ARGS = ["asis", "kwspread-last", "kwspread-mid", "extra-kw", "dict-spread", "same-line-pair", "multiline", "list-elements", "fstring-field"]
+ARGS = ["asis", "kwspread-last", "kwspread-mid", "extra-kw", "dict-spread", "same-line-pair", "multiline", "list-elements", "fstring-field", "inline-suite"]
 
 
 def changed_lines(before: str, after: str) -> set[int]:
@@ -217,6 +217,39 @@ def list_elements(text: str, lines: set[int]) -> str | None:
                     lbracket=cst.LeftSquareBracket(whitespace_after=nl), rbracket=cst.RightSquareBracket())
                 applied[0] += 1
                 return updated_node.with_changes(body=[st.with_changes(value=lst)])
+            return updated_node
+
+    try:
+        out = wrapper.visit(T()).code
+    except Exception:  # noqa: BLE001
+        return None
+    return out if applied[0] else None
+
+
+def inline_suite(text: str, lines: set[int]) -> str | None:
+    """A one-line simple statement on one of `lines` becomes the one-line body of `if True: <stmt>`: a rewrite that adds
+    or removes statements around it meets a suite that is not an indented block."""
+    import libcst as cst
+    from libcst.metadata import MetadataWrapper, PositionProvider
+
+    try:
+        wrapper = MetadataWrapper(cst.parse_module(text))
+    except Exception:  # noqa: BLE001
+        return None
+    applied = [0]
+
+    class T(cst.CSTTransformer):
+        METADATA_DEPENDENCIES = (PositionProvider,)
+
+        def leave_SimpleStatementLine(self, original_node, updated_node):
+            pos = self.get_metadata(PositionProvider, original_node)
+            if pos.start.line != pos.end.line or pos.start.line not in lines or len(updated_node.body) != 1:
+                return updated_node
+            st = updated_node.body[0]
+            if isinstance(st, (cst.Expr, cst.Assign, cst.Return, cst.Assert, cst.AugAssign)) and not isinstance(getattr(st, "value", None), cst.SimpleString):
+                applied[0] += 1
+                return cst.If(test=cst.Name("True"), body=cst.SimpleStatementSuite(body=[st], trailing_whitespace=updated_node.trailing_whitespace),
+                              leading_lines=updated_node.leading_lines)
             return updated_node
 
     try:
@@ -375,6 +408,8 @@ def apply(text: str, vec: dict, added_imports: list[str] | None = None, expected
             t = list_elements(t, lines)
         elif vec["args"] == "fstring-field":
             t = fstring_field(t, lines)
+        elif vec["args"] == "inline-suite":
+            t = inline_suite(t, lines)
         else:
             t = extend_args(t, vec["args"], lines)
         if t is None:
